@@ -818,6 +818,7 @@ func Explore(prog *ssa.Program, entry *ssa.Function, cfg Config) *Result {
 		}
 		w.sol = newSolver(cfg.SolverBin, cfg.SolverTimeout, logp)
 		w.i = newInterpreter(prog, w)
+		w.i.mainpkg = entry.Pkg
 		workers[k] = w
 		wg.Add(1)
 		go func() {
